@@ -440,7 +440,8 @@ def lines_key(line, impl, model):
 
 
 SITE = {"psend": ("proxy-answer", "the answer the proxy sends to the broker (sendAnswer)"),
-        "csend": ("client-offer", "the offer the client sends to the broker (Negotiate)")}
+        "csend": ("client-offer", "the offer the client sends to the broker (Negotiate)"),
+        "csendc": ("client-offer", "the offer the client sends to the broker (NewSnowflakeClient, Negotiate)")}
 
 
 def send_prop(line, impl, model):
@@ -660,7 +661,7 @@ def run(ctx):
 C08_ARGS = ["-test.run", "^TestVerifC08Driver$", "-verif.c08"]
 
 
-IGNORED_LAST = ("strip", "lines", "psend", "csend", "peer", "peerg")
+IGNORED_LAST = ("strip", "lines", "psend", "csend", "csendc", "peer", "peerg")
 
 
 def crosscheck_once(ctx, pools, n):
@@ -744,7 +745,8 @@ def sites_part(ctx, usable, pools):
         for keep in "01":
             pl2.append("%s psend %s %s x%s" % (AREA, keep, tok, t.hex()))
             pk.append("psend:keep=%s:%s" % (keep, k if k.startswith("class:") else ("unparsable" if tok == "U" else "generated")))
-    model, _ = ctx.correspond(pexe, pl2, pk, label="proxy-sendAnswer", prop=send_prop, key_of=send_key, impl_args=C08_ARGS, crosscheck=0)
+    from checks import c13
+    model, _ = c13.correspond_robust(ctx, pexe, pl2, pk, C08_ARGS, "proxy-sendAnswer", send_prop, send_key)
     pools.append((pl2, model))
     real_pc_part(ctx, pexe)
 
@@ -757,11 +759,11 @@ def sites_part(ctx, usable, pools):
         u = urlsplit(url)
         return u.port is None and ":" not in (u.hostname or "")
 
-    def add(keep, uk, url, mk, cache, front, k, tok, t):
+    def add(keep, uk, url, mk, cache, front, k, tok, t, op="csend"):
         if cache and not amp_ok(url):
             return
-        cl.append("%s csend %s x%s x%s x%s %s x%s" % (AREA, keep, url.encode().hex(), cache.encode().hex(), front.encode().hex(), tok, t.hex()))
-        ck.append("csend:keep=%s:url=%s:%s:%s" % (keep, uk, mk, k if k.startswith("class:") else ("unparsable" if tok == "U" else "generated")))
+        cl.append("%s %s %s x%s x%s x%s %s x%s" % (AREA, op, keep, url.encode().hex(), cache.encode().hex(), front.encode().hex(), tok, t.hex()))
+        ck.append("%s:keep=%s:url=%s:%s:%s" % (op, keep, uk, mk, k if k.startswith("class:") else ("unparsable" if tok == "U" else "generated")))
     # every kind of broker URL x every rendezvous method x keep x {all, some, none} local
     pick = {}
     for k, tok, t in cls:
@@ -772,12 +774,18 @@ def sites_part(ctx, usable, pools):
             for keep in "01":
                 for k, tok, t in trio:
                     add(keep, uk, url, mk, cache, front, k, tok, t)
+    # the same through the exported constructor NewSnowflakeClient (op csendc)
+    for uk, url in BROKER_URLS:
+        for mk, cache, front in (METHODS[0], METHODS[4]):
+            for keep in "01":
+                for k, tok, t in trio:
+                    add(keep, uk, url, mk, cache, front, k, tok, t, op="csendc")
     for k, tok, t in cls + rest:
         for keep in "01":
             uk, url = rng.choice(BROKER_URLS)
             mk, cache, front = rng.choice(METHODS if amp_ok(url) else METHODS[:4])
             add(keep, uk, url, mk, cache, front, k, tok, t)
-    model, _ = ctx.correspond(cexe, cl, ck, label="client-Negotiate", prop=send_prop, key_of=send_key, impl_args=C08_ARGS, crosscheck=0)
+    model, _ = c13.correspond_robust(ctx, cexe, cl, ck, C08_ARGS, "client-Negotiate", send_prop, send_key)
     pools.append((cl, model))
 
 
@@ -808,6 +816,33 @@ def real_pc_part(ctx, pexe):
         if d:
             ncand = sum(1 for _, attrs in d["media"] for a in attrs if a[1] == "c")
             shapes["%s" % addr] = "%d candidates, %d local" % (ncand, ndrop(d))
+    # SnowflakeProxy{KeepLocalAddresses}.Start(): the answer of the session it runs has the machine's own candidates
+    own_local = None
+    for (keep, addr), r in zip(cases, res):
+        if addr == "-" and not r.startswith("!"):
+            d = parse_lstruct(r.split(" ")[0])
+            own_local = ndrop(d) if d else None
+    sl = ["%s pstart %s" % (AREA, keep) for keep in "01"]
+    rc, sres, err = vlib.run_impl(pexe, sl, args=C08_ARGS)
+    sres = sres + ["!died"] * (len(sl) - len(sres))
+    for l, r in zip(sl, sres):
+        keep = l.split(" ")[2]
+        ctx.count(l + " " + r[:60], kind="pstart:keep=" + keep)
+        if r.startswith("!panic") or r == "!died":
+            ctx.violation("proxy-answer-panic", "SnowflakeProxy.Start panicked before the answer was sent: " + r[:200], dict(label="pstart", case=l, impl=r[:4000]))
+            continue
+        d = parse_lstruct(r) if not r.startswith("!") else None
+        if d is None:
+            ctx.not_shown("pstart: the driver could not observe an answer: %s" % r[:200])
+            continue
+        n = ndrop(d)
+        if keep == "0" and n:
+            ctx.violation("proxy-answer-leaks-local", "SnowflakeProxy{KeepLocalAddresses: false}.Start(): the answer sent to the broker contains %d local host "
+                          "candidate line(s)" % n, dict(label="pstart", case=l, impl=r[:4000]))
+        if keep == "1" and own_local and n == 0:
+            ctx.violation("proxy-answer-altered-when-kept", "SnowflakeProxy{KeepLocalAddresses: true}.Start(): the answer sent to the broker has no local host candidate "
+                          "although this machine has %d" % own_local, dict(label="pstart", case=l, impl=r[:4000]))
+    ctx.extra["pstart_discriminates"] = bool(own_local)
     if pending:
         for (l, line, sent), m in zip(pending, vlib.run_model([x[1] for x in pending])):
             if m != sent:
@@ -823,7 +858,7 @@ def replay(ctx, doc):
         if not case:
             continue
         a = case.split(" ")
-        if a[1] in ("lines", "psend", "csend", "psendreal", "lparse"):
+        if a[1] in ("lines", "psend", "csend", "csendc", "psendreal", "pstart", "lparse"):
             bad += replay_lines(case)
             continue
         if a[1] == "parse":
@@ -857,6 +892,15 @@ def replay_lines(case):
     if op == "lparse":
         a = [a[0], "lines", "U", a[2]]
         op = "lines"
+    if op == "pstart":
+        pexe = vlib.go_test_build("./proxy/lib", name="proxy_lib_c08c13.test")
+        rc, r, err = vlib.run_impl(pexe, [case], args=C08_ARGS)
+        r = r[0] if r else "!died"
+        d = parse_lstruct(r) if not r.startswith("!") else None
+        n = ndrop(d) if d else None
+        bad = r.startswith("!panic") or r == "!died" or (a[2] == "0" and n)
+        print("case: %s\n answer the broker got: %s\n local host candidate lines in it: %s\n property: %s" % (case, r[:600], n, "fails" if bad else "holds (keep=1 needs the comparison with psendreal)"))
+        return 1 if bad else 0
     if op == "psendreal":
         pexe = vlib.go_test_build("./proxy/lib", name="proxy_lib_c08c13.test")
         rc, r, err = vlib.run_impl(pexe, [case], args=C08_ARGS)
